@@ -22,6 +22,13 @@ def sweeps(tier, seed):
     for fan in ((12,) if tier == "quick" else (10, 11, 12)):
         for algo in ("ID", "SRC"):
             out.append(families.tree(rng, (1, fan), algo, rng.random() < 0.5, leaves_per_router=1, root_eps=1))
+    # three-level trees with a two-digit index in the middle: node names such as router_0_1_1 and router_0_11 whose
+    # generated identifiers (maps, instances, links) must stay distinct
+    for lv in (((1, 12, 2),) if tier == "quick" else ((1, 12, 2), (1, 11, 3), (2, 11, 2))):
+        for algo in ("ID", "SRC"):
+            if algo == "SRC" and tier == "quick":
+                continue
+            out.append(families.tree(rng, lv, algo, False, leaves_per_router=1, root_eps=1))
     # names with digits and underscores
     for algo in ("ID", "SRC"):
         d, t = families.star(rng, 4, algo, False, shapes=[None, 3, None, [2, 2]])
@@ -96,7 +103,7 @@ def run(tier, seed, rep, replay=None):
         rep.fail(k, msg + f" [{t}]", {"desc": d, "tags": t}, observed=msg)
     rep.coverage.update({
         "evaluations": len(idx), "distinct_nontrivial": len(distinct),
-        "rule": "all routing families + size sweeps (12x12 and 11x2 router arrays, fan-out 12 trees), names with digits and "
+        "rule": "all routing families + size sweeps (12x12 and 11x2 router arrays, fan-out 12 trees, three-level trees with a two-digit middle index), names with digits and "
                 "underscores, address widths 16..64 with ranges touching 2^addr_width; every accepted description's real "
                 "output is read back fail-closed and its text facts go through chk_C12; distinct by canonical description",
         "samples": [{"tags": t} for _, t in cases[:: max(1, len(cases) // 3)][:3]],
